@@ -91,6 +91,24 @@ def training_list(rng):
     return pws
 
 
+def near_equal_list(rng):
+    """Counts of about a thousand that differ by 1-3 (probabilities of neighbouring lines of one rules file agree to 3-4 digits
+    without being equal): the scorer must give each string the probability of ITS OWN line, which is also what the guesser's
+    pre-terminal carries - a reader that merges 'almost equal' lines on one side only breaks the promise."""
+    words = rng.sample(["table", "chair", "house", "plant", "river"], 3)        # one rules file: Alpha/5.txt
+    tails = rng.sample(["7", "3", "9", "0"], 3)                                  # one rules file: Digits/1.txt
+    base = rng.choice([1000, 1500, 2400])
+    pws = []
+    for i, w in enumerate(words):                 # alpha counts base+5, base+4 (or +3), ...: neighbours 0.04-0.2 % apart
+        pws += [w + "12"] * (base + 5 - i * rng.choice([1, 2]))
+    for i, t in enumerate(tails):                 # digit counts likewise, behind a four-letter word of its own
+        pws += ["lamp" + t] * (base // 2 + 3 - i)
+    pws += ["Lamp!"] * (base // 3) + ["LAMP!"] * (base // 3 - 1)     # two masks of Capitalization/4.txt likewise
+    pws += ["zebra1", "Zebra12", "x9"]
+    rng.shuffle(pws)
+    return pws
+
+
 def train_all(code, lists):
     """run trainer.py for every list (8 at a time); returns rule directories (None = trainer failed)"""
     env = common.subenv()
@@ -381,6 +399,8 @@ def run(ctx):
     cap = ctx.scale(5000, 20000)
     code = common.copy_code_tree(common.scratch())
     lists = [training_list(rng) for _ in range(n_rs)]
+    for k in range(1, n_rs, max(2, n_rs // ctx.scale(2, 12))):
+        lists[k] = near_equal_list(rng)
     dirs = train_all(code, lists)
     vio, corr, samples = [], [], []
     # the translated source of parse() still equals the model (or: which lemma / which construct broke)
